@@ -71,6 +71,7 @@ class Sim(object):
         self.max_steps = max_steps
         self.max_vtime_us = max_vtime_us
         self.aborting = False
+        self.harness_fault = None
         self.end_state = None             # done / deadlock / step-cap / ...
         self.end_detail = None
         self.in_sched = False
@@ -120,6 +121,15 @@ class Sim(object):
         if fatal:
             self.fail_fast = signature
             self.abort('violation', signature)
+
+    def unsupported(self, what):
+        """The code under test reached for something the simulated standard
+        library does not model: the run cannot be judged (harness error, never
+        a verdict about the property)."""
+        if self.harness_fault is None:
+            self.harness_fault = 'unsupported in simulation: %s' % what
+        self.abort('harness-fault', self.harness_fault)
+        raise HarnessError(self.harness_fault)
 
     # ------------------------------------------------------------ events
     def after(self, delay_us, fn, label=''):
